@@ -223,7 +223,13 @@ class CW(object):
         above = self.layers[len(self.layers) - self.layers[::-1].index("retry"):] if "retry" in self.has else []
         if true_rets and "poll" in self.has:
             s = min(true_rets)
-            late = [e for e in evs if e[3] == "poll.shown" and e[0] > s and any("'target'" in r for r in e[4].get("results", []))]
+            # the poll thread snapshots its descriptors some time between waking up and entering the user's
+            # function: only a poll whose thread woke up after cancel() had returned must not contain the future
+            def woke_after(e):
+                w = [x for x in evs if x[3] == "wake" and x[2] == e[2] and x[0] < e[0]]
+                return bool(w) and w[-1][0] > s
+            late = [e for e in evs if e[3] == "poll.shown" and e[0] > s and woke_after(e)
+                    and any("'target'" in r for r in e[4].get("results", []))]
             if late:
                 res.violation("polled-after-cancel-true", "%s: the poll function was still shown the future's descriptor (seq %d) after cancel() had returned True (seq %d)"
                               % (where, late[0][0], s))
